@@ -1,6 +1,6 @@
 SPECIFICATION Spec
 CONSTANTS
-  LeafIds = {"n1", "nhex", "nexp", "nfrac", "ninf", "nnan", "ndur", "ndur2", "s1", "s2", "s3", "foo", "colon", "foo_a", "foo_ab", "foo_nre", "foo_ul", "sel_n", "sel_u", "sel_e", "kw_sum", "kw_off", "kw_start", "kw_by", "time", "startf", "stepf"}
+  LeafIds = {"n1", "nhex", "nexp", "nfrac", "ninf", "nnan", "ndur", "ndur2", "s1", "s2", "s3", "foo", "colon", "foo_a", "foo_ab", "foo_nre", "foo_ul", "sel_n", "sel_u", "sel_e", "sel_ne", "kw_sum", "kw_off", "kw_start", "kw_by", "time", "startf", "stepf"}
   UnOps = {"+", "-"}
   CallFs = {}
   AggOps = {}
